@@ -9,9 +9,11 @@ package main
 // appended to in the outer body itself, not in a nested loop over the element's parts.)
 
 import (
+	"fmt"
 	"go/ast"
 	"go/token"
 	"go/types"
+	"strings"
 )
 
 func isTextAccumType(t types.Type) bool {
@@ -373,4 +375,412 @@ func runAppendAfterSizedMake(p *Prog, r *Report) {
 	}
 	r.ExpectMin("E15.sized-makes", nMakes, 8)
 	r.Clauses = append(r.Clauses, "E15.append-after-sized-make: a slice made with a non-zero length is filled by index (or copy); it is not appended to while its made elements are never stored into")
+}
+
+// E15.partial-key-dedup — a loop that collects items and skips those whose key is already in
+// a seen-set (`if seen[k] { continue }; …; seen[k] = true`) drops every later item with the
+// same key. That is only harmless when the key *is* the item. When the key is a part of the
+// item (one field of the appended value, or one of several values the appended literal is
+// built from), distinct items that agree on that part are silently lost. Sites where this is
+// the reviewed intention are listed with their reason.
+var partialKeyDedupExceptions = map[string]string{
+	"decoder.(*PathDecoder).labelCandidatesFromDependentSchema|foundCandidateNames": "reviewed: dependent keys are duplicated where one key is labels-only and another has labels+attributes; for completing the label itself only the label value matters (source comment), and the first body schema in sorted key order supplies detail/description",
+}
+
+func runPartialKeyDedup(p *Prog, r *Report) {
+	nLoops, nSets := 0, 0
+	for _, fn := range p.Funcs {
+		if fn.Body == nil || fn.Parent != nil {
+			continue
+		}
+		info := fn.Info()
+		ast.Inspect(fn.Body, func(m ast.Node) bool {
+			var body *ast.BlockStmt
+			switch l := m.(type) {
+			case *ast.RangeStmt:
+				body = l.Body
+			case *ast.ForStmt:
+				body = l.Body
+			default:
+				return true
+			}
+			nLoops++
+			// stores seen[k] = … and lookups seen[k] in this loop body (not in nested function literals)
+			type use struct {
+				ix    *ast.IndexExpr
+				store bool
+			}
+			sets := map[types.Object][]use{}
+			ast.Inspect(body, func(x ast.Node) bool {
+				if _, ok := x.(*ast.FuncLit); ok {
+					return false
+				}
+				ix, ok := x.(*ast.IndexExpr)
+				if !ok {
+					return true
+				}
+				id, ok := ast.Unparen(ix.X).(*ast.Ident)
+				if !ok {
+					return true
+				}
+				mt, ok := info.TypeOf(id).Underlying().(*types.Map)
+				if !ok {
+					return true
+				}
+				// set-like: bool or empty struct values
+				switch vt := mt.Elem().Underlying().(type) {
+				case *types.Basic:
+					if vt.Kind() != types.Bool {
+						return true
+					}
+				case *types.Struct:
+					if vt.NumFields() != 0 {
+						return true
+					}
+				default:
+					return true
+				}
+				o := info.ObjectOf(id)
+				if o == nil || (o.Pos() >= body.Pos() && o.Pos() < body.End()) {
+					return true // a set of this iteration only
+				}
+				store := false
+				if as, ok := p.Parent(ix).(*ast.AssignStmt); ok {
+					for _, l := range as.Lhs {
+						if l == ast.Expr(ix) {
+							store = true
+						}
+					}
+				}
+				sets[o] = append(sets[o], use{ix, store})
+				return true
+			})
+			for o, us := range sets {
+				var key ast.Expr
+				hasStore, hasLookup := false, false
+				for _, u := range us {
+					if u.store {
+						hasStore = true
+						key = u.ix.Index
+					} else {
+						hasLookup = true
+					}
+				}
+				if !hasStore || !hasLookup {
+					continue
+				}
+				// innermost loop containing both only: skip if an inner loop of `body` contains all uses
+				inner := false
+				ast.Inspect(body, func(x ast.Node) bool {
+					switch l := x.(type) {
+					case *ast.RangeStmt:
+						if l.Body != body {
+							all := true
+							for _, u := range us {
+								if !nodeContains(l.Body, u.ix) {
+									all = false
+								}
+							}
+							if all {
+								inner = true
+							}
+						}
+					case *ast.ForStmt:
+						if l.Body != body {
+							all := true
+							for _, u := range us {
+								if !nodeContains(l.Body, u.ix) {
+									all = false
+								}
+							}
+							if all {
+								inner = true
+							}
+						}
+					}
+					return !inner
+				})
+				if inner {
+					continue
+				}
+				// what the loop collects
+				var items []ast.Expr
+				ast.Inspect(body, func(x ast.Node) bool {
+					if _, ok := x.(*ast.FuncLit); ok {
+						return false
+					}
+					as, ok := x.(*ast.AssignStmt)
+					if !ok || len(as.Rhs) != 1 {
+						return true
+					}
+					c, ok := ast.Unparen(as.Rhs[0]).(*ast.CallExpr)
+					if !ok || !isBuiltinCall(info, c, "append") || len(c.Args) < 2 {
+						return true
+					}
+					if bo := baseObj(info, as.Lhs[0]); bo != nil && bo.Pos() >= body.Pos() && bo.Pos() < body.End() {
+						return true
+					}
+					items = append(items, c.Args[1:]...)
+					return true
+				})
+				if len(items) == 0 {
+					continue
+				}
+				nSets++
+				keyTxt := exprStr(key)
+				partial := ""
+				for _, it := range items {
+					if exprStr(it) == keyTxt {
+						continue
+					}
+					// other data the item is made of
+					ast.Inspect(it, func(x ast.Node) bool {
+						if partial != "" {
+							return false
+						}
+						switch e := x.(type) {
+						case *ast.SelectorExpr:
+							if _, isPkg := pkgNameOf(info, e.X).(*types.PkgName); isPkg {
+								return false
+							}
+							if exprStr(e) != keyTxt {
+								if _, isVar := info.ObjectOf(e.Sel).(*types.Var); isVar {
+									partial = exprStr(e)
+								}
+							}
+							return false
+						case *ast.Ident:
+							if v, ok := info.ObjectOf(e).(*types.Var); ok && !v.IsField() && e.Name != keyTxt {
+								if _, isKV := p.Parent(e).(*ast.KeyValueExpr); isKV && p.Parent(e).(*ast.KeyValueExpr).Key == ast.Expr(e) {
+									return true
+								}
+								// the item itself, of which the key is a part
+								partial = e.Name
+							}
+						}
+						return true
+					})
+				}
+				ckey := o.Name() + " keyed by " + keyTxt
+				switch {
+				case partial == "":
+					r.Add("E15.partial-key-dedup", fn.Name, ckey, p.Pos(key), OK, "the seen-set is keyed by the collected item itself", true)
+				default:
+					if why, ok := partialKeyDedupExceptions[fn.Name+"|"+o.Name()]; ok {
+						r.Add("E15.partial-key-dedup", fn.Name, ckey, p.Pos(key), Excepted, why, true)
+					} else {
+						r.Add("E15.partial-key-dedup", fn.Name, ckey, p.Pos(key), Violated,
+							"items are skipped when "+keyTxt+" was seen before, but the collected item also carries "+partial+": distinct items that agree on "+keyTxt+" are silently dropped after the first", true)
+					}
+				}
+			}
+			return true
+		})
+	}
+	r.ExpectMin("E15.loops-examined-for-dedup", nLoops, 150)
+	r.Counts["E15.seen-sets"] = nSets
+	r.Clauses = append(r.Clauses, "E15.partial-key-dedup: a collecting loop that skips items through a seen-set keys the set by the collected item itself, not by a part of it (reviewed exceptions listed)")
+}
+
+// E16.flag-overwrite — two independent boolean flags of one object (`x.IsOptional`,
+// `x.IsSensitive`) each decide about the same variable in adjacent if statements by plain
+// assignment. Flags are not mutually exclusive, so when both are set the first decision is
+// overwritten unseen: what was meant as an accumulation ("optional, sensitive") shows only the
+// last flag.
+func runFlagOverwrite(p *Prog, r *Report) {
+	nPairs := 0
+	for _, fn := range p.Funcs {
+		if fn.Body == nil || fn.Parent != nil {
+			continue
+		}
+		info := fn.Info()
+		flagOf := func(is *ast.IfStmt) (base string, field string, ok bool) {
+			if is.Init != nil || is.Else != nil {
+				return
+			}
+			sel, isSel := ast.Unparen(is.Cond).(*ast.SelectorExpr)
+			if !isSel {
+				return
+			}
+			v, isVar := info.ObjectOf(sel.Sel).(*types.Var)
+			if !isVar || !v.IsField() {
+				return
+			}
+			if b, isB := v.Type().Underlying().(*types.Basic); !isB || b.Kind() != types.Bool {
+				return
+			}
+			return exprStr(sel.X), sel.Sel.Name, true
+		}
+		assigned := func(is *ast.IfStmt) (types.Object, ast.Expr) {
+			if len(is.Body.List) != 1 {
+				return nil, nil
+			}
+			as, ok := is.Body.List[0].(*ast.AssignStmt)
+			if !ok || as.Tok != token.ASSIGN || len(as.Lhs) != 1 || len(as.Rhs) != 1 {
+				return nil, nil
+			}
+			id, ok := as.Lhs[0].(*ast.Ident)
+			if !ok {
+				return nil, nil
+			}
+			// self-referential right-hand sides accumulate (x = x + …)
+			self := false
+			ast.Inspect(as.Rhs[0], func(z ast.Node) bool {
+				if i2, ok := z.(*ast.Ident); ok && info.ObjectOf(i2) == info.ObjectOf(id) {
+					self = true
+				}
+				return true
+			})
+			if self {
+				return nil, nil
+			}
+			return info.ObjectOf(id), as.Rhs[0]
+		}
+		ast.Inspect(fn.Body, func(m ast.Node) bool {
+			blk, ok := m.(*ast.BlockStmt)
+			if !ok {
+				return true
+			}
+			for i := 0; i+1 < len(blk.List); i++ {
+				a, ok1 := blk.List[i].(*ast.IfStmt)
+				b, ok2 := blk.List[i+1].(*ast.IfStmt)
+				if !ok1 || !ok2 {
+					continue
+				}
+				ba, fa, oka := flagOf(a)
+				bb, fb, okb := flagOf(b)
+				if !oka || !okb || ba != bb || fa == fb {
+					continue
+				}
+				va, ea := assigned(a)
+				vb, eb := assigned(b)
+				if va == nil || va != vb {
+					continue
+				}
+				nPairs++
+				key := va.Name() + " under " + ba + "." + fa + " then " + bb + "." + fb
+				if exprStr(ea) == exprStr(eb) {
+					r.Add("E16.flag-overwrite", fn.Name, key, p.Pos(b), OK, "both flags assign the same value", false)
+					continue
+				}
+				r.Add("E16.flag-overwrite", fn.Name, key, p.Pos(b), Violated,
+					"the flags "+fa+" and "+fb+" of "+ba+" are independent; when both are set the value assigned for "+fa+" ("+exprStr(ea)+") is overwritten by the one for "+fb+" ("+exprStr(eb)+") before it is read", true)
+			}
+			return true
+		})
+	}
+	r.Counts["E16.adjacent-flag-decisions"] = nPairs
+	r.Clauses = append(r.Clauses, "E16.flag-overwrite: adjacent if statements on two different boolean fields of one object do not assign different values to the same variable by plain assignment")
+}
+
+// E14.result-position — the result analogue of E14.param-position. A function that hands the
+// results of a self-recursive call on to its own caller (result i returned in position i)
+// hands *all* of them on: the values belong together (a body schema and the dependency keys it
+// was found under). Returning the recursive call's result in one position next to the outer
+// frame's own variable in another pairs values of two different lookups.
+func runResultPosition(p *Prog, r *Report) {
+	n := 0
+	for _, fn := range p.Funcs {
+		if fn.Body == nil || fn.Lit != nil || fn.Obj == nil {
+			continue
+		}
+		sig := fn.Obj.Type().(*types.Signature)
+		if sig.Results().Len() < 2 {
+			continue
+		}
+		info := fn.Info()
+		ast.Inspect(fn.Body, func(m ast.Node) bool {
+			as, ok := m.(*ast.AssignStmt)
+			if !ok || len(as.Rhs) != 1 || len(as.Lhs) != sig.Results().Len() {
+				return true
+			}
+			c, ok := ast.Unparen(as.Rhs[0]).(*ast.CallExpr)
+			if !ok {
+				return true
+			}
+			if f := calleeOf(info, c); f == nil || f != fn.Obj {
+				return true
+			}
+			if as.Tok != token.DEFINE {
+				return true // results threaded through existing variables (a running counter, an accumulator)
+			}
+			bound := make([]types.Object, len(as.Lhs))
+			for i, l := range as.Lhs {
+				if id, ok := l.(*ast.Ident); ok && id.Name != "_" {
+					if _, isNew := info.Defs[id]; isNew && info.Defs[id] != nil {
+						bound[i] = info.ObjectOf(id)
+					}
+				}
+			}
+			// returns that forward at least one bound result in its own position
+			scope := p.Parent(as)
+			if is, ok := scope.(*ast.IfStmt); ok && is.Init == ast.Stmt(as) {
+				scope = is
+			} else {
+				scope = fn.Body
+			}
+			ast.Inspect(scope, func(k ast.Node) bool {
+				if _, ok := k.(*ast.FuncLit); ok {
+					return false
+				}
+				rs, ok := k.(*ast.ReturnStmt)
+				if !ok || len(rs.Results) != len(bound) || rs.Pos() < as.Pos() {
+					return true
+				}
+				forwards := false
+				for i, res := range rs.Results {
+					if id, ok := ast.Unparen(res).(*ast.Ident); ok && bound[i] != nil && info.ObjectOf(id) == bound[i] {
+						forwards = true
+					}
+				}
+				if !forwards {
+					return true
+				}
+				n++
+				var bad []string
+				for i, res := range rs.Results {
+					id, ok := ast.Unparen(res).(*ast.Ident)
+					if !ok {
+						continue // a literal / call: a fresh value
+					}
+					o := info.ObjectOf(id)
+					if bound[i] != nil && o == bound[i] {
+						continue
+					}
+					if _, isVar := o.(*types.Var); !isVar {
+						continue // a constant (a status)
+					}
+					v := o.(*types.Var)
+					if v.Pkg() != nil && v.Parent() == v.Pkg().Scope() {
+						continue
+					}
+					// a variable of the outer frame in a position whose recursive result is dropped
+					if !types.Identical(v.Type(), sig.Results().At(i).Type()) {
+						continue
+					}
+					isOther := false
+					for j := range bound {
+						if bound[j] == o {
+							isOther = true // a recursive result, only moved: E14.param-position's mirror
+						}
+					}
+					what := "the outer frame's own " + id.Name
+					if isOther {
+						what = "the recursive call's result of another position (" + id.Name + ")"
+					}
+					bad = append(bad, fmt.Sprintf("position %d returns %s instead of the recursive call's result %d", i, what, i))
+				}
+				key := "return after recursive call " + exprStr(c.Fun)
+				if len(bad) == 0 {
+					r.Add("E14.result-position", fn.Name, key, p.Pos(rs), OK, "every forwarded position carries the recursive call's own result", true)
+				} else {
+					r.Add("E14.result-position", fn.Name, key, p.Pos(rs), Violated, strings.Join(bad, "; ")+": values of two different invocations are paired in one result", true)
+				}
+				return true
+			})
+			return true
+		})
+	}
+	r.Counts["E14.forwarding-returns"] = n
+	r.Clauses = append(r.Clauses, "E14.result-position: a return that forwards a result of a self-recursive call in its own position forwards the recursive call's result in every position that is a variable")
 }
